@@ -3,8 +3,8 @@
 (* terminal and acting identity are printed with it.                                                          *)
 EXTENDS Pipeline, Json
 
-VARIABLES host, authn, id, imp, impOther, authz, rule, flow, ep
-vars == <<host, authn, id, imp, impOther, authz, rule, flow, ep>>
+VARIABLES host, authn, id, imp, impOther, authz, rule, flow, ep, denyItem
+vars == <<host, authn, id, imp, impOther, authz, rule, flow, ep, denyItem>>
 
 Ids == {[user |-> "alice", groups |-> <<"g1", Authn>>, extras |-> <<>>],
         [user |-> "system:serviceaccount:ns1:sa1", groups |-> <<"system:serviceaccounts", "system:serviceaccounts:ns1", Authn>>, extras |-> <<>>],
@@ -22,16 +22,27 @@ IdInit == /\ host \in {"known", "alias"} /\ authn = "ok" /\ id \in Ids /\ imp \i
           /\ authz \in [{"users", "groups", "serviceaccounts", "userextras"} -> Answers]
           /\ (\A it \in DOMAIN authz : it \notin ItemsOf([imp |-> imp]) => authz[it] = "allow")     \* answers for items that are not requested do not matter
           /\ Cardinality({it \in DOMAIN authz : authz[it] # "allow"}) <= 1
-          /\ rule = "match" /\ flow = "free" /\ ep = "ready"
+          /\ rule = "match" /\ flow = "free" /\ ep = "ready" /\ denyItem = NoItem
+\* item part (C02): several items of one class (same value under different keys, same key with different values, several groups);
+\* every class is allowed, exactly ONE item is denied / errors - or none
+GroupSeqs2 == {<<>>, <<"g9", "g8">>}
+ExtraSeqs2 == {<< <<"scopes", "v">>, <<"project", "v">> >>, << <<"scopes", "a">>, <<"scopes", "b">> >>,
+               << <<"scopes", "v">>, <<"project", "v">>, <<"project", "w">> >>}
+ImpsMulti == {[user |-> k.user, kind |-> k.kind, ns |-> k.ns, groups |-> g, extras |-> e] : k \in Kinds, g \in GroupSeqs2, e \in ExtraSeqs2}
+ItemInit == /\ host = "known" /\ authn = "ok" /\ id = [user |-> "alice", groups |-> <<"g1", Authn>>, extras |-> <<>>] /\ imp \in ImpsMulti /\ impOther = {}
+            /\ authz = [x \in {"users", "groups", "serviceaccounts", "userextras"} |-> "allow"]
+            /\ denyItem \in {NoItem} \cup {[res |-> it.res, name |-> it.name, sub |-> it.sub, ans |-> a] : it \in ItemsOfImp(imp), a \in {"deny", "error"}}
+            /\ rule = "match" /\ flow = "free" /\ ep = "ready"
 \* outcome part (C04): every stage combination, two impersonation shapes
 OutInit == /\ host \in {"known", "alias", "unknown", "denyall"} /\ authn \in {"ok", "bad"} /\ id = [user |-> "alice", groups |-> <<"g1", Authn>>, extras |-> <<>>]
            /\ imp \in {NoImp, [user |-> "bob", kind |-> "user", ns |-> "", groups |-> <<>>, extras |-> <<>>], [NoImp EXCEPT !.groups = <<"g9">>]}
            /\ impOther = {} /\ authz \in {[x \in {"users", "groups", "serviceaccounts", "userextras"} |-> a] : a \in {"allow", "deny"}}
            /\ rule \in {"match", "nomatch"} /\ flow \in {"free", "full", "fullevents"} /\ ep \in {"ready", "none"}
            /\ (flow # "free" => ep = "ready")         \* (a slot cannot be kept occupied on a cluster without a ready endpoint)
-Init == IdInit \/ OutInit
+           /\ denyItem = NoItem
+Init == IdInit \/ OutInit \/ ItemInit
 Next == UNCHANGED vars
-C == [host |-> host, authn |-> authn, id |-> id, imp |-> imp, impOther |-> impOther, authz |-> authz, rule |-> rule, flow |-> flow, ep |-> ep]
+C == [host |-> host, authn |-> authn, id |-> id, imp |-> imp, impOther |-> impOther, authz |-> authz, rule |-> rule, flow |-> flow, ep |-> ep, denyItem |-> denyItem]
 Emit == PrintT(<<"CASE", ToJson([c |-> C, outcome |-> Outcome(C), acting |-> Acting(C)])>>)
 \* sanity: exactly one terminal; a forwarded impersonation was fully allowed; the acting identity is one of the two
 Sane == /\ Outcome(C).t \in {"term", "fwd"}
